@@ -308,6 +308,7 @@ Named(n) == CASE n = "AtomsQ" -> AtomsQ [] n = "AtomsAll" -> AtomsAll [] n = "At
               [] n = "P1Small" -> P1Small [] n = "P1Two" -> P1Two [] n = "P1Chk" -> P1Chk [] n = "Pairs" -> Pairs
               [] n = "QTiny" -> Reps(AtomsTiny, RepFormsSmall) [] n = "QTiny3" -> Reps(AtomsTiny, RepForms3)
               [] n = "QPairs" -> Reps(Pairs, RepFormsSmall) [] n = "QPairs2" -> Reps(Pairs, RepForms2)
+              [] n = "QPairs3" -> Reps(Pairs, RepForms3)
               [] n = "QQ" -> Cats(Reps(AtomsTiny, RepForms3), Reps(AtomsTiny, RepForms3))
               [] n = "PairsQ" -> Pairs \cup Reps(AtomsTiny, RepFormsSmall)
               [] n = "CatPairs" -> Cats(AtomsTiny, AtomsTiny)
@@ -337,8 +338,8 @@ GroupsB2 == GroupsB \cup CatL(P1Small, "P1Small") \cup AltL(P1Small, "P1Small") 
 \* small universes for TLC's own exhaustive check of (1) = (2) = (3)
 GroupsChk == Ones(AtomsChk) \cup RepG(RepFormsChk, "AtomsChk") \cup CatL(Atoms4, "Atoms4") \cup AltL(Atoms4, "Atoms4")
              \cup RepG(RepForms3, "PairsQ") \cup CatL(Reps({L1, L2}, {<<"*", 0, INF>>, <<"n,m", 1, 2>>}), "QPairs2")
-GroupsChk2 == GroupsChk \cup Ones(P1Chk) \cup RepG(RepFormsChk, "P1Chk") \cup CatL(P1Chk, "AtomsChk") \cup CatR(P1Chk, "AtomsChk") \cup AltL(P1Chk, "AtomsChk")
-              \cup CatL(Reps(AtomsTiny, RepFormsSmall), "QPairs")
+GroupsChk2 == GroupsChk \cup Ones(P1Chk) \cup RepG(RepFormsChk, "P1Chk") \cup CatL(P1Chk, "AtomsChk") \cup CatR(P1Chk, "Atoms4") \cup AltL(P1Chk, "Atoms4")
+              \cup CatL(Reps(AtomsTiny, RepFormsSmall), "QPairs3")
 Groups == CASE Uni = "A" -> GroupsA [] Uni = "A2" -> GroupsA2 [] Uni = "B" -> GroupsB [] Uni = "B2" -> GroupsB2
             [] Uni = "chk" -> GroupsChk [] Uni = "chk2" -> GroupsChk2
 Universe == UNION {Members(g) : g \in Groups}
